@@ -327,7 +327,7 @@ theorem leaf_str (rx : Rx) (req nl : Bool) (l : Leaf) (s : List Char) (hc : Clea
     unfold KnownUncompilableRegex at hunc
     rw [hfs, hp] at hunc
     simpa using hunc
-  by_cases hsp : l.c.specialFormat = true
+  by_cases hsp : l.c.notStringTyped = true
   · -- special format: no string keyword is declared on the clean fragment
     have hkw : l.c.hasStringKw = false := by
       unfold KnownSpecialFormatSkipsLength at hspec
@@ -339,7 +339,8 @@ theorem leaf_str (rx : Rx) (req nl : Bool) (l : Leaf) (s : List Char) (hc : Clea
     have hacc : acceptsAll rx (primOf l.c) (extract rx.compiles req l.c ⟨primOf l.c, nl⟩) (.sc (.str s)) =
         ((if l.c.isEmailFmt then rx.email s else true) && (if l.c.isUrlFmt then rx.url s else true)) := by
       unfold extract
-      simp only [hnum, hfs, hsp, if_true, Bool.false_eq_true, if_false]
+      have hsp2 : (l.c.specialFormat || (primOf l.c != Prim.string)) = true := hsp
+      simp only [hnum, hfs, hsp2, if_true, Bool.false_eq_true, if_false]
       exact fmt_accepts_str ..
     have hsat : satisfies rx l.c l.items (.sc (.str s)) =
         ((if l.c.isEmailFmt then rx.email s else true) && (if l.c.isUrlFmt then rx.url s else true)) := by
@@ -347,14 +348,15 @@ theorem leaf_str (rx : Rx) (req nl : Bool) (l : Leaf) (s : List Char) (hc : Clea
     apply leafJ_of _ _ _ _ _ _ hty
     · intro h; rw [hsat, ← hacc]; exact h
     · intro h _; rw [hacc, ← hsat]; exact h
-  · have hsp' : l.c.specialFormat = false := by simpa using hsp
+  · have hsp' : l.c.notStringTyped = false := by simpa using hsp
     have hacc : acceptsAll rx (primOf l.c) (extract rx.compiles req l.c ⟨primOf l.c, nl⟩) (.sc (.str s)) =
         (((if l.c.isEmailFmt then rx.email s else true) && (if l.c.isUrlFmt then rx.url s else true)) &&
           (lenOk l.c.minLength l.c.maxLength s.length &&
             (!((req && !nl) && l.c.minLength.isNone && l.c.maxLength.isNone) || decide (1 ≤ s.length))) &&
           (match l.c.pattern with | some p => rx.isMatch p s | none => true)) := by
       unfold extract
-      simp only [hnum, hfs, hsp', if_true, Bool.false_eq_true, if_false]
+      have hsp2 : (l.c.specialFormat || (primOf l.c != Prim.string)) = false := hsp'
+      simp only [hnum, hfs, hsp2, if_true, Bool.false_eq_true, if_false]
       rw [acceptsAll_append, acceptsAll_append, fmt_accepts_str, length_accepts_str,
         regex_accepts_str rx _ l.c ⟨primOf l.c, nl⟩ s hcomp (hskip hjt)]
     have hsat : satisfies rx l.c l.items (.sc (.str s)) =
